@@ -1238,6 +1238,10 @@ RETCODE adfReadEntryBlock ( struct AdfVolume * const   vol,
          secType == ST_LSOFT  )
     {
         swapEndian((uint8_t*)ent, SWBL_LINK);
+    } else if ( secType == ST_ROOT ) {
+        /* the root block read as a directory: its bitmap page list lies where
+           an entry block has its comment (it is written back as a root block) */
+        swapEndian((uint8_t*)ent, SWBL_ROOT);
     } else {
         swapEndian((uint8_t*)ent, SWBL_ENTRY);
     }
@@ -1277,7 +1281,7 @@ RETCODE adfWriteEntryBlock ( struct AdfVolume * const         vol,
     memcpy(buf, ent, sizeof(struct bEntryBlock));
 
 #ifdef LITT_ENDIAN
-    swapEndian(buf, SWBL_ENTRY);
+    swapEndian ( buf, ent->secType == ST_ROOT ? SWBL_ROOT : SWBL_ENTRY );
 #endif
     newSum = adfNormalSum(buf,20,sizeof(struct bEntryBlock));
     swLong(buf+20, newSum);
